@@ -1,7 +1,7 @@
 (** C06: concrete witnesses (evaluated by vm_compute).  The two defects of the code before
     the repairs, as executions of the model with the corresponding [fixes] switched off, and
     the same inputs healed by the repaired code. *)
-From Wharf Require Import Base.Prelude FS.Tree FS.Ops Heal.Validator Heal.Healer.
+From Wharf Require Import FS.Light FS.Tree FS.Ops Heal.Validator Heal.Healer.
 
 Local Open Scope N_scope.
 
